@@ -403,3 +403,16 @@ impl SeedP { fn take_ab(self) -> String { let Self { a, b, .. } = self; format!(
 pub fn case_self_struct_pattern() -> String {
     SeedP { a: 4, b: "x".to_string(), c: true }.take_ab()
 }
+#[derive(Debug, Clone, PartialEq)]
+pub enum ValD { Text(String), Many(Vec<ValD>) }
+impl Default for ValD { fn default() -> Self { ValD::Text(String::new()) } }
+impl ValD {
+    fn shrink(&mut self) { if let ValD::Many(vs) = self { if vs.len() <= 1 { *self = vs.pop().unwrap_or_default(); } } }
+}
+pub fn case_default_of_self() -> Vec<ValD> {
+    let mut a = ValD::Many(vec![]);
+    let mut b = ValD::Many(vec![ValD::Text("x".into())]);
+    let mut c = ValD::Many(vec![ValD::Text("x".into()), ValD::Text("y".into())]);
+    a.shrink(); b.shrink(); c.shrink();
+    vec![a, b, c]
+}
